@@ -376,7 +376,7 @@ pub async fn run_block<T: 'static>(
             if let Some(owner) = sched.owner(t) {
               if let Some(s) = inflight.iter().find(|s| s.idx == owner) {
                 let t0 = std::time::Instant::now();
-                while !s.waker.flag.load(Ordering::SeqCst) && t0.elapsed().as_secs() < 10 {
+                while !s.waker.flag.load(Ordering::SeqCst) && t0.elapsed().as_secs() < 120 {
                   std::thread::yield_now();
                 }
               }
